@@ -44,6 +44,7 @@ type Contract struct {
 	Inline   bool
 	Trusted  bool // assumed, not verified (listed as assumption)
 	NoPanic  bool // generate implicit safety obligations
+	RealFloat bool // float64 treated as exact reals in this function's obligations
 	Requires []*Clause
 	Ensures  []*Clause
 	Modifies []*Clause
@@ -91,7 +92,7 @@ type Contracts struct {
 	Scope   map[string]string // package path -> file whose imports are visible to spec/ghost/lemma declarations
 }
 
-var clauseHead = regexp.MustCompile(`^(scope|func|iface|pure_heap|pure|inline|trusted|nopanic|requires|ensures|modifies|loop|capture|assert@|ghost|spec|global|lemma)\b`)
+var clauseHead = regexp.MustCompile(`^(scope|func|iface|realfloat|pure_heap|pure|inline|trusted|nopanic|requires|ensures|modifies|loop|capture|assert@|ghost|spec|global|lemma)\b`)
 var labelRe = regexp.MustCompile(`^\[([^\]]+)\]\s*`)
 
 func parseContracts(repo string) (*Contracts, error) {
@@ -230,6 +231,8 @@ func (cs *Contracts) parseFile(file, pkgPath string) error {
 				cur.Trusted = true
 			case "nopanic":
 				cur.NoPanic = true
+			case "realfloat":
+				cur.RealFloat = true
 			case "requires":
 				cur.Requires = append(cur.Requires, mkClause("requires"))
 			case "ensures":
